@@ -453,13 +453,21 @@ def check_floors(mod, tier, agg):
     return missing
 
 
+def _shrink(sample, limit=6000):
+    """Keep evidence files readable: an over-long sample is cut to its leading part."""
+    txt = json.dumps(sample, default=repr)
+    if len(txt) <= limit:
+        return sample
+    return {"truncated_case_json": txt[:limit] + " ...", "full_length": len(txt)}
+
+
 def write_evidence(mod, tier, seed, agg, wall, inconclusive, extra=None):
     pid = mod.ID
     cov = {
         "evaluations": int(agg["n_all"]) if agg["n_all"] else int(sum(agg["verdicts"].values())),
         "distinct_nontrivial": len(agg["hashes"]),
         "rule": mod.RULE,
-        "samples": agg["samples"] or [{"note": "no held non-trivial case in this run"}],
+        "samples": [_shrink(x) for x in agg["samples"]] or [{"note": "no held non-trivial case in this run"}],
         "cases_run": int(sum(agg["verdicts"].values())),
         "verdicts": dict(agg["verdicts"]),
         "monitor_evaluations": dict(sorted(agg["events"].items())),
@@ -484,7 +492,7 @@ def write_evidence(mod, tier, seed, agg, wall, inconclusive, extra=None):
     }
     d = os.path.join(HERE, "evidence")
     os.makedirs(d, exist_ok=True)
-    tmp = os.path.join(d, ".%s.json.tmp" % pid)
+    tmp = os.path.join(d, ".%s.json.%d.tmp" % (pid, os.getpid()))
     with open(tmp, "w") as f:
         json.dump(ev, f, indent=1, default=repr)
     os.replace(tmp, os.path.join(d, pid + ".json"))
